@@ -221,6 +221,51 @@ def run(prog: Program, res: Result) -> None:  # noqa: PLR0912, PLR0915
     check_trim_carry_ownership(prog, res, "C18.R4", exit_rule="C18.R4b")
     # the dispatcher refreshes the carry for every tag it dispatches (R3 arm check) and parse_block leaves it set for the end tag
 
+    # raw text is trimmed (when inner whitespace control is on) by the two markers adjacent to it
+    rawtag = prog.cls("liquid2.builtin.tags.raw_tag.RawTag").methods.get("parse")
+    if rawtag is None:
+        raise AnalysisError("RawTag.parse vanished")
+    trims = [c for c in ast.walk(rawtag.node) if isinstance(c, ast.Call) and isinstance(c.func, ast.Attribute) and c.func.attr == "trim" and len(c.args) == 3]
+    res.floor("C18.R1", "trim calls in RawTag.parse", len(trims), 1)
+    for c in trims:
+        idx = []
+        for a in c.args[1:]:
+            idx.append(a.slice.value if isinstance(a, ast.Subscript) and isinstance(a.value, ast.Attribute) and a.value.attr == "wc" and isinstance(a.slice, ast.Constant) else None)
+        what = "RawTag.parse trims the raw text with the markers next to it: wc[1] (after `raw`) on the left, wc[2] (before `endraw`) on the right"
+        if idx == [1, 2]:
+            res.ok("C18.R1", f"{rawtag.file}:{c.lineno} RawTag.parse", what, norm(c, 70))
+        else:
+            res.fail("C18.R1", file=rawtag.file, line=c.lineno, qualname="RawTag.parse", construct=f"raw text trimmed with wc{idx}", message=f"RawTag.parse trims the raw text with markers {idx} of {{%(0) raw (1)%}}…{{%(2) endraw (3)%}}: a marker that is not adjacent to the raw text trims it", what=what)
+
+    # the markers a token carries are in source order: element i of its wc tuple is the i-th marker recorded / matched
+    n_wc = 0
+    lx = prog.mod("liquid2/lexer.py")
+    for c in ast.walk(lx.tree):
+        if not (isinstance(c, ast.Call) and (dotted(c.func) or "").endswith("Token")):
+            continue
+        wcv = next((k.value for k in c.keywords if k.arg == "wc"), None)
+        if not isinstance(wcv, ast.Tuple):
+            continue
+        for i, el in enumerate(wcv.elts):
+            pos = None
+            if isinstance(el, ast.Subscript) and norm(el.value) == "self.wc" and isinstance(el.slice, ast.Constant) and isinstance(el.slice.value, int):
+                pos = el.slice.value
+            else:
+                g = next((x for x in ast.walk(el) if isinstance(x, ast.Call) and isinstance(x.func, ast.Attribute) and x.func.attr == "group" and x.args and isinstance(x.args[0], ast.Constant) and isinstance(x.args[0].value, str)), None)
+                if g is not None and g.args[0].value[-1:].isdigit():
+                    pos = int(g.args[0].value[-1])
+            if pos is None:
+                continue
+            n_wc += 1
+            fi_ = prog.enclosing_function(lx, c)
+            q_ = fi_.qualname if fi_ else "<module>"
+            what = f"{q_}: marker {i} of `{norm(c.func)}` is the marker written at position {i}"
+            if pos == i:
+                res.ok("C18.R1", f"{lx.relpath}:{c.lineno} {q_}", what, norm(el, 50))
+            else:
+                res.fail("C18.R1", file=lx.relpath, line=c.lineno, qualname=q_, construct=f"{norm(c.func)}: wc[{i}] taken from marker {pos}", message=f"{q_} builds `{norm(c.func)}` whose marker {i} is `{norm(el, 50)}` - the marker written at position {pos} of the markup: a whitespace-control marker then trims text on the other side of the tag", what=what)
+    res.floor("C18.R1", "positional markers in token constructions", n_wc, 12)
+
     # ------------------------------------------------------------------ R6 token boundaries are markup boundaries
     res.rule("C18.R6", "no pattern of the lexer uses the `$` anchor (it also matches before a final newline): text is split into content tokens only at markup openers and at the absolute end of input (\\Z), so the whitespace a marker acts on never depends on a lexing artefact")
     import re._parser as _sp
